@@ -289,6 +289,9 @@ func runCache(e *env, replayCases []string) error {
 		hs = append(hs, History{Runs: []Run{{Variant: 0, Sched: "noexec:0"}, {Variant: 0, Sched: "ok"}}})
 		hs = append(hs, History{Runs: []Run{{Variant: 0, Sched: "noexec:1"}, {Variant: 0, Sched: "ok"}}})
 		hs = append(hs, History{Runs: []Run{{Variant: 0, Sched: "ok"}, {Variant: 0, Sched: "ok"}}})
+		// the binary is rebuilt at the same path between two complete runs (the variants differ in bytes appended
+		// to the same ELF image: same sections, same Go build id, another file hash)
+		hs = append(hs, History{Runs: []Run{{Variant: 1, Sched: "ok"}, {Variant: 2, Sched: "ok"}, {Variant: 1, Sched: "ok"}}})
 		hs = append(hs, History{Runs: []Run{{Variant: 0, Sched: "ok"}, {Variant: 1, Sched: "kill:3"}, {Variant: 1, Sched: "ok"}, {Variant: 0, Sched: "ok"}}})
 		hs = append(hs, History{Runs: []Run{{Variant: 0, Sched: "ok"}, {Variant: 0, Sched: "kill:2"}, {Variant: 0, Sched: "ok"}}})
 		hs = append(hs, directHistories()...)
@@ -393,7 +396,15 @@ func runCache(e *env, replayCases []string) error {
 		if !bad {
 			e.sample(string(hj) + "  =>  " + strings.Join(got, " | "))
 		}
-		if len(e.sum.Mismatches) >= 5 {
+		// differences from the specification that are not failures of the property (another header format, say) do
+		// not end the search: go on until some history shows the property itself failing
+		withInput := 0
+		for _, m := range e.sum.Mismatches {
+			if m.FailingInput != "" {
+				withInput++
+			}
+		}
+		if withInput >= 3 || len(e.sum.Mismatches) >= 45 {
 			break
 		}
 	}
